@@ -356,6 +356,8 @@ theorem rt_num {cs : CharSpec} (n : ANum) (np : NPad) (hn : n.ok = true) (hp : n
 
 /-! ### ranges -/
 
+theorem C01_range_needs_extension' (ts : List Tok) : rangeValue (α := α) false ts = none := rfl
+
 theorem rt_findIdx_append {β : Type} (p : β → Bool) (A : List β) (x : β) (B : List β)
     (hA : ∀ t ∈ A, p t = false) (hx : p x = true) : (A ++ x :: B).findIdx? p = some A.length := by
   induction A with
@@ -754,5 +756,310 @@ theorem rt_leaf_text {cs : CharSpec} {allowed : TK → Bool} {pre l post ts : Li
     cases hx' : u.text with
     | nil => exact absurd hx' hne
     | cons c cr => exact ⟨c, by simp, (hc c (by simp [hx'])).1⟩
+
+/-! ### values: `numOrRange` and `parseValue` -/
+
+theorem numKind_not_minus {k : TK} (h : numKind k = true) : k ≠ .minus := by
+  cases k <;> simp [numKind] at h ⊢
+
+theorem blank_not_minus {t : Tok} (h : BlankT t) : t.kind ≠ .minus := by
+  intro hk; simp [BlankT, isWsComment, hk] at h
+
+/-- a numeric value (number, or range with RANGE_VALUES) is read back -/
+theorem rt_numOrRange {cs : CharSpec} (v : AVal) (p : VPad) (hv : v.ok cs = true) (hp : p.ok cs = true)
+    (hnt : v.isText = false) (ext : Bool) (hext : v.isRange = true → ext = true)
+    (ts : List Tok) (hs : Spells ts (spellVal v p)) :
+    numOrRange (α := α) ext ts = some (.ok v.denote) := by
+  cases v with
+  | text l => simp [AVal.isText] at hnt
+  | range lo hi =>
+    have : ext = true := hext rfl
+    subst this
+    simp only [AVal.ok, Bool.and_eq_true] at hv
+    unfold numOrRange
+    rw [rt_range lo hi p hv.1 hv.2 hp ts hs]
+    rfl
+  | num n =>
+    have hp' := hp
+    simp only [VPad.ok, Bool.and_eq_true] at hp
+    obtain ⟨⟨⟨⟨⟨hpre, hpost⟩, hplo⟩, hphi⟩, hm1⟩, hm2⟩ := hp
+    simp only [spellVal] at hs
+    obtain ⟨r1, post, rfl, hs, hpost'⟩ := hs.append_inv
+    obtain ⟨pre, mid, rfl, hpre', hmid⟩ := hs.append_inv
+    have bpre := padOK_blank (hpre'.padOK_of hpre)
+    have bpost := padOK_blank (hpost'.padOK_of hpost)
+    unfold numOrRange
+    rw [rangeValue_none_of_no_minus]
+    · simp only [AVal.ok] at hv
+      exact rt_num n p.lo hv hplo pre mid post hmid bpre bpost
+    · intro t ht
+      simp only [List.mem_append] at ht
+      rcases ht with (ht | ht) | ht
+      · exact blank_not_minus (bpre t ht)
+      · exact numKind_not_minus (rt_num_kinds hplo hmid t ht)
+      · exact blank_not_minus (bpost t ht)
+
+theorem rt_spellNum_head (n : ANum) (np : NPad) :
+    ∃ h r, spellNum n np = h :: r ∧ isWsComment h.kind = false := by
+  cases n <;> simp [spellNum, tk, isWsComment]
+
+theorem rt_spellNum_last (n : ANum) (np : NPad) :
+    ∃ i l, spellNum n np = i ++ [l] ∧ isWsComment l.kind = false := by
+  cases n with
+  | int ds => exact ⟨[], _, rfl, by simp [tk, isWsComment]⟩
+  | dec i f => exact ⟨[_, _], _, rfl, by simp only [tk, fracKind]; split <;> simp [isWsComment]⟩
+  | dec0 f => exact ⟨[_], _, rfl, by simp only [tk, fracKind]; split <;> simp [isWsComment]⟩
+  | frac n d => exact ⟨_, _, rfl, by simp [tk, isWsComment]⟩
+  | mixed w n d => exact ⟨_, _, rfl, by simp [tk, isWsComment]⟩
+
+/-- with RANGE_VALUES off a range spelling is not numeric (so it is read as a text value) -/
+theorem rt_range_off {cs : CharSpec} (lo hi : ANum) (p : VPad) (hp : p.ok cs = true)
+    (ts : List Tok) (hs : Spells ts (spellVal (.range lo hi) p)) :
+    numOrRange (α := α) false ts = none := by
+  simp only [VPad.ok, Bool.and_eq_true] at hp
+  obtain ⟨⟨⟨⟨⟨hpre, hpost⟩, hplo⟩, hphi⟩, hm1⟩, hm2⟩ := hp
+  obtain ⟨h, r, hh, hhk⟩ := rt_spellNum_head lo p.lo
+  obtain ⟨i, l, hl, hlk⟩ := rt_spellNum_last hi p.hi
+  simp only [spellVal, hh, hl, List.append_assoc, List.cons_append, List.nil_append] at hs
+  obtain ⟨pre, r1, rfl, hpre', hs⟩ := hs.append_inv
+  obtain ⟨th, r2, rfl, hthk, -, hs⟩ := hs.cons_inv
+  obtain ⟨tr, r3, rfl, -, hs⟩ := hs.append_inv
+  obtain ⟨m1, r4, rfl, -, hs⟩ := hs.append_inv
+  obtain ⟨tm, r5, rfl, hmk, -, hs⟩ := hs.cons_inv
+  obtain ⟨m2, r6, rfl, -, hs⟩ := hs.append_inv
+  obtain ⟨ti, r7, rfl, -, hs⟩ := hs.append_inv
+  obtain ⟨tl, post, rfl, htlk, -, hpost'⟩ := hs.cons_inv
+  simp only [tk] at hmk
+  have bpre := padOK_blank (hpre'.padOK_of hpre)
+  have bpost := padOK_blank (hpost'.padOK_of hpost)
+  unfold numOrRange
+  simp only [C01_range_needs_extension']
+  have e : pre ++ th :: (tr ++ (m1 ++ tm :: (m2 ++ (ti ++ tl :: post)))) =
+      pre ++ (th :: (tr ++ m1) ++ tm :: (m2 ++ ti) ++ [tl]) ++ post := by simp
+  have htrim := rt_trim pre post (th :: (tr ++ m1) ++ tm :: (m2 ++ ti) ++ [tl]) bpre bpost (by simp)
+    (by intro x hx; simp at hx; subst hx; exact rt_not_blank_of_kind (by rw [hthk]; exact hhk))
+    (by intro x hx; rw [List.getLast?_concat] at hx; simp at hx; subst hx
+        exact rt_not_blank_of_kind (by rw [htlk]; exact hlk))
+  rw [e, rt_numericValue_long]
+  · rw [htrim]
+    apply rtFiltered_none_of_minus
+    refine ⟨tm, ?_, hmk⟩
+    simp [List.mem_filter, notWsComment, isWsComment, hmk]
+  · rw [htrim]
+    refine ⟨by simp; omega, ?_⟩
+    intro hlen x hx
+    cases hrm : tr ++ m1 with
+    | nil =>
+      simp only [hrm, List.cons_append, List.nil_append] at hx
+      simp at hx; subst hx; simp [hmk]
+    | cons y ys =>
+      have : (tr ++ m1).length ≥ 1 := by rw [hrm]; simp
+      simp at hlen this
+      omega
+
+theorem rt_dropWhile_concat {β : Type} (p : β → Bool) (a : List β) (z : β) (hz : p z = false) :
+    (a ++ [z]).dropWhile p = a.dropWhile p ++ [z] := by
+  induction a with
+  | nil => simp [List.dropWhile_cons, hz]
+  | cons x a ih =>
+    simp only [List.cons_append, List.dropWhile_cons]
+    split
+    · exact ih
+    · rfl
+
+theorem rt_trim_head (pre rest : List Tok) (z : Tok) (hz : isWsComment z.kind = false) (hpre : ∀ t ∈ pre, BlankT t) :
+    ∃ X, trimTokens (pre ++ z :: rest) = z :: X := by
+  unfold trimTokens
+  have h1 : (pre ++ z :: rest).dropWhile (fun t => isWsComment t.kind) = z :: rest := by
+    rw [List.dropWhile_append_of_pos (by intro t ht; exact hpre t ht)]
+    simp [List.dropWhile_cons, hz]
+  rw [h1, List.reverse_cons, rt_dropWhile_concat (fun t : Tok => isWsComment t.kind) _ _ hz, List.reverse_append]
+  exact ⟨_, rfl⟩
+
+/-- `01…`: a token run whose first non-blank token is a `ZeroInt` is never a number -/
+theorem rt_zeroInt_numericValue (pre rest : List Tok) (z : Tok) (hz : z.kind = .zeroInt)
+    (hpre : ∀ t ∈ pre, BlankT t) : numericValue (α := α) (pre ++ z :: rest) = none := by
+  obtain ⟨X, hX⟩ := rt_trim_head pre rest z (by simp [hz, isWsComment]) hpre
+  unfold numericValue
+  rw [hX]
+  have hf : ∀ Y, List.filter notWsComment (z :: Y) = z :: List.filter notWsComment Y := by
+    intro Y; simp [List.filter_cons, notWsComment, isWsComment, hz]
+  rcases X with _ | ⟨b, _ | ⟨c, _ | ⟨d, r⟩⟩⟩
+  · simp [hz]
+  · simp [hz]
+  · simp only [List.isEmpty_cons, Bool.false_eq_true, if_false, hz]
+    rw [hf]
+    generalize List.filter notWsComment [b, c] = f
+    rcases f with _ | ⟨b', _ | ⟨c', _ | ⟨d', r'⟩⟩⟩ <;> simp [hz]
+  · simp only [List.isEmpty_cons, Bool.false_eq_true, if_false]
+    rw [hf]
+    generalize List.filter notWsComment (b :: c :: d :: r) = f
+    rcases f with _ | ⟨b', _ | ⟨c', _ | ⟨d', _ | ⟨e', r'⟩⟩⟩⟩ <;> simp [hz]
+
+theorem rt_zeroInt_numOrRange (pre rest : List Tok) (z : Tok) (hz : z.kind = .zeroInt)
+    (hpre : ∀ t ∈ pre, BlankT t) (ext : Bool) : numOrRange (α := α) ext (pre ++ z :: rest) = none := by
+  unfold numOrRange
+  have hr : rangeValue (α := α) ext (pre ++ z :: rest) = none := by
+    unfold rangeValue
+    split
+    · rfl
+    · cases hf : (pre ++ z :: rest).findIdx? (fun t => t.kind == .minus) with
+      | none => rfl
+      | some mid =>
+        dsimp only
+        rw [List.findIdx?_eq_some_iff_getElem] at hf
+        obtain ⟨hlt, hp, hbefore⟩ := hf
+        have hmid : pre.length < mid := by
+          rcases Nat.lt_or_ge pre.length mid with h | h
+          · exact h
+          · exfalso
+            rcases Nat.lt_or_ge mid pre.length with h' | h'
+            · have : (pre ++ z :: rest)[mid] = pre[mid] := by rw [List.getElem_append_left h']
+              rw [this] at hp
+              have := blank_not_minus (hpre _ (List.getElem_mem h'))
+              simp [this] at hp
+            · have hm : mid = pre.length := by omega
+              subst hm
+              simp [hz] at hp
+        obtain ⟨k, hk⟩ : ∃ k, mid = pre.length + (k + 1) := ⟨mid - pre.length - 1, by omega⟩
+        have ht : (pre ++ z :: rest).take mid = pre ++ z :: rest.take k := by
+          rw [hk, List.take_append]; simp [List.take_of_length_le]
+        rw [ht, rt_zeroInt_numericValue pre _ z hz hpre]
+  rw [hr]
+  exact rt_zeroInt_numericValue pre rest z hz hpre
+
+theorem bpText_run {off : Nat} {toks : List Tok} (hr : RunAt off toks) (s : BP α) :
+    bpText off toks s = (buildText off toks, s) := by
+  have hb := (buildText_faithful off toks hr.1 hr.2).1
+  unfold bpText
+  simp only [hb, Bool.false_eq_true, if_false]
+  rfl
+
+/-- where `parse_value` says a value starts: its first token, or the current offset -/
+def valStart (tokens : List Tok) (s : BP α) : Nat := (tokens.head?.map (·.start)).getD (offAt s.toks s.cur)
+
+theorem parseValue_num_run (tokens : List Tok) (s : BP α) (v : Value α)
+    (h : numOrRange (α := α) (s.ext.has Gen.EXT_RANGE_VALUES) tokens = some (.ok v)) :
+    parseValue tokens s = (⟨v, ⟨valStart tokens s, offAt s.toks s.cur⟩⟩, s) := by
+  unfold parseValue
+  simp only [bind, StateT.bind, currentOffset_run]
+  have : hasExt (α := α) Gen.EXT_RANGE_VALUES s = (s.ext.has Gen.EXT_RANGE_VALUES, s) := rfl
+  rw [this]
+  simp only [h]
+  rfl
+
+theorem parseValue_text_run {off : Nat} (tokens : List Tok) (s : BP α) (hr : RunAt off tokens)
+    (h : numOrRange (α := α) (s.ext.has Gen.EXT_RANGE_VALUES) tokens = none)
+    (hne : (buildText (valStart tokens s) tokens).isTextEmpty s.cs = false) :
+    parseValue tokens s =
+      (⟨.text ((buildText (valStart tokens s) tokens).trimmed s.cs), ⟨valStart tokens s, offAt s.toks s.cur⟩⟩, s) := by
+  unfold parseValue
+  simp only [bind, StateT.bind, currentOffset_run]
+  have : hasExt (α := α) Gen.EXT_RANGE_VALUES s = (s.ext.has Gen.EXT_RANGE_VALUES, s) := rfl
+  rw [this]
+  simp only [h]
+  unfold textValue
+  simp only [bind, StateT.bind]
+  have hr' : RunAt (valStart tokens s) tokens := hr.headStart _
+  unfold valStart at hr' hne ⊢
+  rw [bpText_run hr']
+  simp only [get, getThe, MonadStateOf.get, StateT.get, pure, StateT.pure, hne, Bool.false_eq_true, if_false]
+
+/-! ### text values -/
+
+theorem leaf_tok_kind {cs : CharSpec} {allowed : TK → Bool} {l : List Tok} (h : LeafFacts cs allowed l) :
+    ∀ t ∈ l, allowed t.kind = true ∨ t.kind = .ws := by
+  intro t ht
+  have := h.toks t ht
+  rw [Bool.or_eq_true] at this
+  rcases this with h1 | h1
+  · exact Or.inl (isAtomTok_facts h1).1
+  · exact Or.inr (isSpTok_facts h1).1
+
+theorem plainKind_not_blank {k : TK} (h : plainKind k = true) : isWsComment k = false := by
+  cases k <;> simp [plainKind, isWsComment] at h ⊢
+
+/-- the actual tokens of a leaf: first and last are visible (not blank) -/
+theorem leaf_actual_ends {cs : CharSpec} {allowed : TK → Bool} {l tl : List Tok} (h : LeafFacts cs allowed l)
+    (hs : Spells tl l) : tl ≠ [] ∧ (∀ t, tl.head? = some t → ¬ BlankT t) ∧ (∀ t, tl.getLast? = some t → ¬ BlankT t) := by
+  obtain ⟨u, r, hu, hau⟩ := h.head
+  obtain ⟨i, w, hw, haw⟩ := h.last
+  refine ⟨?_, ?_, ?_⟩
+  · intro h0; subst h0
+    have := hs.length; rw [hu] at this; simp at this
+  · intro t ht
+    rw [hu] at hs
+    obtain ⟨t', r', rfl, hk, -, -⟩ := hs.cons_inv
+    simp at ht; subst ht
+    exact rt_not_blank_of_kind (by rw [hk]; exact plainKind_not_blank (isAtomTok_facts hau).2.1)
+  · intro t ht
+    rw [hw] at hs
+    obtain ⟨ti, tw, rfl, -, hs2⟩ := hs.append_inv
+    obtain ⟨t', rfl, hk, -⟩ := hs2.single_inv
+    rw [List.getLast?_concat] at ht
+    simp at ht; subst ht
+    exact rt_not_blank_of_kind (by rw [hk]; exact plainKind_not_blank (isAtomTok_facts haw).2.1)
+
+theorem valKind_excl {k : TK} (h : valKind k = true ∨ k = .ws) :
+    k ≠ .slash ∧ k ≠ .dot ∧ k ≠ .minus ∧ k ≠ .percent ∧ k ≠ .closeBrace ∧ k ≠ .eq := by
+  rcases h with h | h
+  · cases k <;> simp [valKind] at h ⊢
+  · subst h; simp
+
+/-- a text value is not numeric, whatever the extensions -/
+theorem rt_text_not_numeric {cs : CharSpec} (l : List Tok) (hl : leafOK cs valKind l = true)
+    (hns : notSingleInt l = true) (pre tl post : List Tok) (hs : Spells tl l)
+    (bpre : ∀ t ∈ pre, BlankT t) (bpost : ∀ t ∈ post, BlankT t) (ext : Bool) :
+    numOrRange (α := α) ext (pre ++ tl ++ post) = none := by
+  have lf := leafOK_facts hl
+  have hkinds : ∀ t ∈ tl, t.kind ≠ .slash ∧ t.kind ≠ .dot ∧ t.kind ≠ .minus := by
+    intro t ht
+    obtain ⟨u, hu, hk, -⟩ := hs.mem ht
+    have := valKind_excl (leaf_tok_kind lf u hu)
+    rw [hk]; exact ⟨this.1, this.2.1, this.2.2.1⟩
+  obtain ⟨hne, hhead, hlast⟩ := leaf_actual_ends lf hs
+  have hnm : ∀ t ∈ pre ++ tl ++ post, t.kind ≠ .minus := by
+    intro t ht
+    simp only [List.mem_append] at ht
+    rcases ht with (ht | ht) | ht
+    · exact blank_not_minus (bpre t ht)
+    · exact (hkinds t ht).2.2
+    · exact blank_not_minus (bpost t ht)
+  unfold numOrRange
+  rw [rangeValue_none_of_no_minus _ _ hnm]
+  dsimp only
+  have htrim := rt_trim pre post tl bpre bpost hne hhead hlast
+  rcases tl with _ | ⟨a, _ | ⟨b, _ | ⟨c, r⟩⟩⟩
+  · exact absurd rfl hne
+  · -- one token: not an integer
+    have : a.kind ≠ .int := by
+      have hlen := hs.length
+      cases l with
+      | nil => simp at hlen
+      | cons u l' =>
+        cases l' with
+        | cons _ _ => simp at hlen
+        | nil =>
+          obtain ⟨t, ht, hk, -⟩ := hs.single_inv
+          simp only [List.cons.injEq, and_true] at ht; subst ht
+          simp only [notSingleInt, bne_iff_ne, ne_eq] at hns
+          rw [hk]; exact hns
+    unfold numericValue
+    simp only [htrim]
+    simp [this]
+  · have hb := (hkinds a (by simp)).2.1
+    unfold numericValue
+    simp only [htrim]
+    simp [hb]
+  · rw [rt_numericValue_long]
+    · rw [htrim]
+      apply rtFiltered_none_of_no_slash
+      intro t ht
+      exact (hkinds t (List.mem_filter.mp ht).1).1
+    · rw [htrim]
+      refine ⟨by simp, ?_⟩
+      intro _ x hx
+      simp at hx; subst hx
+      exact (hkinds b (by simp)).2.1
 
 end Cook
